@@ -26,7 +26,7 @@ D = ['bitstring.bits:Bits._setfile', 'bitstring.bits:Bits._setauto', 'bitstring.
      'bitstring.bitstore:BitStore.invert_msb0', 'bitstring.bitstore:BitStore.getindex_msb0', 'bitstring.bitstore:BitStore.getslice_lsb0', 'bitstring.bitstore:BitStore.getindex_lsb0',
      'bitstring.bitstore:BitStore.find', 'bitstring.bitstore:BitStore.rfind', 'bitstring.bitstore:BitStore.findall_msb0', 'bitstring.bitstore:BitStore.any_set', 'bitstring.bitstore:BitStore.all_set']
 
-ROUTES = ['bitarray-little', 'bitarray-little-window', 'file-len', 'file-len-unaligned', 'file-whole', 'file-exact-len', 'file-offset', 'file-offset-len', 'handle-len', 'bytes-window', 'bitarray', 'bitarray-window', 'slice-of-larger', 'copy-of', 'bools']
+ROUTES = ['unnamed-reader-len', 'unnamed-reader-window', 'bitarray-little', 'bitarray-little-window', 'file-len', 'file-len-unaligned', 'file-whole', 'file-exact-len', 'file-offset', 'file-offset-len', 'handle-len', 'bytes-window', 'bitarray', 'bitarray-window', 'slice-of-larger', 'copy-of', 'bools']
 
 
 def build(K, cls, route, n):
@@ -62,6 +62,19 @@ def build(K, cls, route, n):
                 return cls(h, length=n), rawbits[:n]
             finally:
                 h.close()
+    if route in ('unnamed-reader-len', 'unnamed-reader-window'):
+        # a buffered reader over something that is not a named file (no .name, nothing to memory-map): the content comes from a
+        # small concrete catalogue chosen by the solver (a real io.BytesIO cannot hold symbolic bytes)
+        import io
+        off = 3 if route == 'unnamed-reader-window' else 0
+        nb = (n + off + 7) // 8 + (0 if (off == 0 and n % 8 == 0) else 1)
+        b = K.choice('reader_content', [bytes((37 * (i + 1) * k + 11 * k) & 0xff for i in range(nb)) for k in (1, 3, 7)])
+        allb = O.empty()
+        allb.frombytes(b)
+        rd = io.BufferedReader(io.BytesIO(b))
+        if off:
+            return cls(rd, offset=off, length=n), allb[off:off + n]
+        return (cls(rd) if (n % 8 == 0 and n) else cls(rd, length=n)), allb[:n]
     if route == 'bytes-window':
         nb = (n + 5 + 7) // 8
         b = K.bytes('b', nb)
@@ -289,7 +302,7 @@ def conditions(tier):
         conds.append(Cond(cid, fn, bounds, D, params, timeout=T, setup=F.install_fakes))
 
     WHOLE = ('file-whole', 'file-exact-len')
-    routes_q = ['bitarray-little', 'bitarray-little-window', 'file-len', 'file-whole', 'file-exact-len', 'file-offset-len', 'handle-len', 'bytes-window', 'bitarray-window', 'slice-of-larger']
+    routes_q = ['unnamed-reader-len', 'unnamed-reader-window', 'bitarray-little', 'bitarray-little-window', 'file-len', 'file-whole', 'file-exact-len', 'file-offset-len', 'handle-len', 'bytes-window', 'bitarray-window', 'slice-of-larger']
     for c in (['Bits', 'BitArray'] if q else CLS):
         for route in (routes_q if q else ROUTES):
             for n in (([8] if route in WHOLE else [4]) if q else [0, 5, 8, 11]):
